@@ -15,11 +15,12 @@ func Harness_C03_trace_through_transport() {
 	verifAssume(df.VerifSequentialTransport(t))
 	variant := verifPick("variant", 0, 1)
 	split := verifPick("split", 0, 1)
+	stringData := verifPick("string-data", 0, 1) == 1
 	onDemand := false
 	if verifTier() > 0 {
 		onDemand = verifPick("on-demand", 0, 1) == 1
 	}
-	w := df.VerifBuildDirectFlow([]int{t}, []int{variant}, split, 0)
+	w := df.VerifBuildDirectFlow([]int{t}, []int{variant}, split, 0, stringData)
 	cfg := config.NewDefault()
 	cfg.SummarizeOnDemand = onDemand
 	cfg.SlicingProblems = []config.SlicingSpec{{
